@@ -32,6 +32,9 @@ checks = {
  "C12": ("fault_enumeration", "deviation-bounded DFS (bound 3 quick / 4 thorough) over batches x database states x two fetchers' behaviours x boundary timestamps x validity rule x database faults on the real KeyRing.VerifyJSONs under a virtual clock, against a reference key-acquisition model with call-trace clauses; full products for CheckKeys and for Direct/Perspective fetchers over a scripted key client",
          "Every scenario within the deviation bound is executed on the real code; verdicts must lie between the reference model's 'must' and 'may' sets and the recorded calls to database and fetchers must satisfy the property's acquisition clauses.",
          "ed25519 trusted; unsolicited keys from fetchers are a documented don't-care", "4/C12"),
+ "C16": ("model_checking", "exhaustive products: allow/deny CIDR list configurations x boundary addresses x network types through the real dialer control function (vs net/netip); server names x well-known outcomes x SRV outcomes through the real ResolveServer / LookupWellKnown with in-process HTTP and DNS stubs and a virtual clock (vs the specification's resolution steps); every success/failure plan of both connection passes through the real transport cache with scripted in-memory connections",
+         "Each cell of the configuration/fault products is executed on the real code and compared with an independent reference of the resolution steps and the network policy; connection attempts are observed at the dial and HTTP level.",
+         "net/netip and Go's DNS client trusted; unspecified outcomes (SERVFAIL on _matrix-fed, invalid delegated name) accepted either way", "4/C16"),
 }
 pending = {}
 props = [json.loads(l) for l in open('/verif/properties.jsonl')]
